@@ -152,19 +152,27 @@ def prove_eq(E, what, lhs, rhs):
                 break
         if all_zero:
             return True
-    # 3) z3 with the square-root symbols left free
-    s = z3.Solver(); s.set('timeout', min(E.prove_timeout_ms, 10000) if has_sqrt else E.prove_timeout_ms)
-    s.add(*pcs); s.add(*[c for k, c in side if k != 'sqrt']); s.add(z3.Not(zc))
-    r = E._check(s)
-    if r == 'unsat':
-        return True
-    if not has_sqrt:
-        if r == 'sat':
-            m = s.model()
-            E.failures.append(symx.Failure(what, 'sat', E.model_inputs(m), _model_str(m), E.stats['paths']))
+        # the normal form exists and a coefficient is not identically zero: the generators are algebraically independent
+        # unless two radicands coincide as functions, so this is a counterexample candidate (the replay on floats decides)
+        for mono, c in nf.items():
+            if c is dag.ZERO:
+                continue
+            try:
+                num, D = dag.to_ratfun(c, _RF_MEMO)
+            except NotImplementedError:
+                break
+            s = z3.Solver(); s.set('timeout', E.prove_timeout_ms)
+            s.add(*pcs); s.add(*[dag._FACTORS[k].to_z3(E.zenv) != 0 for k in D]); s.add(num.to_z3(E.zenv) != 0)
+            r = E._check(s)
+            if r == 'sat':
+                m = s.model()
+                E.failures.append(symx.Failure(what, 'sat', E.model_inputs(m), _model_str(m), E.stats['paths']))
+                return False
+            if r != 'unsat':
+                E.failures.append(symx.Failure(what, 'unknown', {}, 'residual coefficient undecided', E.stats['paths']))
+                return False
         else:
-            E.failures.append(symx.Failure(what, 'unknown', {}, s.reason_unknown(), E.stats['paths']))
-        return False
+            return True
     # 4) full query with the defining equations of the square roots
     s = z3.Solver(); s.set('timeout', E.prove_timeout_ms)
     s.add(*pcs); s.add(*[c for _, c in side]); s.add(z3.Not(zc))
